@@ -1,5 +1,4 @@
 CONSTANTS Hosts <- H3  Weights <- WAll  StratSet <- SOthers  WtSet <- BoolBoth  RefreshLists <- Lists1x  Codes <- C3
-CONSTANT CycleOf <- MCCycleOf
 SPECIFICATION Spec
 INVARIANTS TypeOK SelectsMember ErrorIffNoneEligible NoneEligibleMeans Rotation WeightedCycle CycleCoversAll
 CHECK_DEADLOCK FALSE
